@@ -82,4 +82,76 @@ DFloorZ(a, asc) ==
 DRoundEvenZ(a, asc) == IF asc = 0 THEN a ELSE Z(a.s, DRoundDiv(a.m, asc))
 \* fractional part, sign of the operand, same scale
 DFractZ(a, asc) == IF asc = 0 THEN ZZero ELSE Z(a.s, MDivMod(a.m, MPow10(asc))[2])
+
+----------------------------------------------------------------------------
+(* Conversion of a binary floating-point number M * 2^E2 (M the 53-bit     *)
+(* significand as an integer, hidden bit included; E2 the exponent of its  *)
+(* last bit) to a Decimal.  This is a transcription, loop for loop, of the *)
+(* conversion the Decimal library performs (a sequence of exact and lossy  *)
+(* integer steps on a 96-bit register whose result is NOT always the       *)
+(* nearest decimal: halvings that drop a bit, division by 5 that           *)
+(* truncates, digit-by-digit half-up rounding down to 52 bits of           *)
+(* significand).  The result is what `dec(Float)` denotes, exactly.        *)
+(* Result: [k |-> "some", m, sc] or [k |-> "none"] (out of range).         *)
+(***************************************************************************)
+P95 == MPow2(95)
+P96 == MPow2(96)
+P52 == MPow2(52)
+
+\* phase 1: 2^e = 5^-e * 10^e for e < 0: absorb the factor 5^e5 (e5 > 0) into the register
+RECURSIVE B2D1(_, _, _)
+B2D1(b, e5, e10) ==
+  IF e5 <= 0 THEN <<b, e5, e10>>
+  ELSE IF ~MIsOdd(b) THEN B2D1(MShr(b, 1), e5 - 1, e10 + 1)              \* exact halving
+  ELSE LET t == MMulSmall(b, 5) IN
+       IF MCmp(t, P96) < 0 THEN B2D1(t, e5 - 1, e10)                      \* exact multiplication by 5
+       ELSE B2D1(MShr(b, 1), e5 - 1, e10 + 1)                             \* would overflow: halve, losing the low bit
+
+\* phase 2: e5 < 0 (a factor 2^-e5 to absorb): double while there is room, else divide by 5 (truncating)
+RECURSIVE B2D2(_, _, _)
+B2D2(b, e5, e10) ==
+  IF e5 >= 0 THEN [k |-> "go", b |-> b, e10 |-> e10]
+  ELSE IF MCmp(b, P95) < 0 THEN B2D2(MShl(b, 1), e5 + 1, e10 - 1)
+  ELSE IF e10 * 2 > -e5 THEN [k |-> "none"]
+  ELSE B2D2(MDivSmall(b, 5)[1], e5 + 1, e10)
+
+\* phase 3: bring a positive power of ten into the register
+RECURSIVE B2D3(_, _)
+B2D3(b, e10) ==
+  IF e10 <= 0 THEN [k |-> "go", b |-> b, e10 |-> e10]
+  ELSE LET t == MMulSmall(b, 10) IN
+       IF MCmp(t, P96) < 0 THEN B2D3(t, e10 - 1) ELSE [k |-> "none"]
+
+\* phase 4: scale larger than 28: divide by ten, rounding the dropped digit half up, one digit at a time
+RECURSIVE B2D4(_, _)
+B2D4(b, e10) ==
+  IF e10 >= -DecMaxScale THEN <<b, e10>>
+  ELSE LET qr == MDivSmall(b, 10) IN
+       IF qr[1] = <<>> THEN <<qr[1], 0>>                                   \* underflow to zero
+       ELSE B2D4(IF qr[2] >= 5 THEN MAdd(qr[1], <<1>>) ELSE qr[1], e10 + 1)
+
+\* phase 5: drop digits beyond the precision of a double (register down to 52 bits), same digit-wise rounding
+RECURSIVE B2D5(_, _)
+B2D5(b, e10) ==
+  IF e10 >= 0 \/ MCmp(b, P52) < 0 THEN <<b, e10>>
+  ELSE LET qr == MDivSmall(b, 10) IN
+       B2D5(IF qr[2] >= 5 THEN MAdd(qr[1], <<1>>) ELSE qr[1], e10 + 1)
+
+\* phase 6: remove trailing decimal zeros
+RECURSIVE B2D6(_, _)
+B2D6(b, e10) ==
+  IF e10 >= 0 THEN <<b, e10>>
+  ELSE LET qr == MDivSmall(b, 10) IN
+       IF qr[2] = 0 THEN B2D6(qr[1], e10 + 1) ELSE <<b, e10>>
+
+Base2ToDecimal(M, E2) ==
+  LET p1 == B2D1(M, -E2, E2)
+      p2 == B2D2(p1[1], p1[2], p1[3])
+  IN IF p2.k = "none" THEN p2
+     ELSE LET p3 == B2D3(p2.b, p2.e10) IN
+          IF p3.k = "none" THEN p3
+          ELSE LET p4 == B2D4(p3.b, p3.e10)
+                   p5 == B2D5(p4[1], p4[2])
+                   p6 == B2D6(p5[1], p5[2])
+               IN [k |-> "some", m |-> p6[1], sc |-> -p6[2]]
 =============================================================================
